@@ -202,6 +202,37 @@ def run(ctx):
             viol("solve -e 1e-300 exits 0: the requested error is not enforced", {"args": ["solve", "-e", "1e-300", "x.inkfem"], "text": text})
         if r4.status != 0:
             viol("solve -e 1e6 fails", {"args": ["solve", "-e", "1e6", "x.inkfem"], "text": text})
+        # histories: every command, run after other commands in the same directory, does what it does in a clean one
+        hist = [["solve", "x.inkfem"], ["solve", "-w", "x.inkfem"], ["solve", "x.inkfem"], ["solve", "-p", "x.inkfem"], ["pre", "-w", "x.inkfem"],
+                ["solve", "-e", "1e-300", "x.inkfem"], ["pre", "x.inkfem"], ["solve", "x.inkfempre"], ["plot", "x.inkfem"], ["solve", "-e", "1e6", "x.inkfem"]]
+        hr = cli.run_history(ctx, hist, files={"x.inkfem": text}, name="c13h", timeout=300)
+        for k, (args, rk) in enumerate(zip(hist, hr)):
+            fresh = cli.run(ctx, args, files=dict({"x.inkfem": text}, **({"x.inkfempre": hr[k - 1].files.get("x.inkfempre", "")} if args[-1].endswith("pre") else {})), name="c13")
+            runs += 2
+            if marginal(rk) or marginal(fresh):
+                continue
+            rep = {"history": hist[:k + 1], "text": text}
+            if (rk.status == 0) != (fresh.status == 0):
+                viol("%s exits %s after %s in the same directory, %s in a clean one" % (" ".join(args), rk.status, [" ".join(a) for a in hist[:k]], fresh.status), rep)
+                continue
+            if rk.status != 0:
+                continue
+            for out in ("x.inkfemsol", "x.inkfempre", "x.inkfempre.inkfemsol", "x.inkfem.svg"):
+                if out not in fresh.files or (k > 0 and fresh.files.get(out) == hr[k - 1].files.get(out) and out not in ("x.inkfemsol",)):
+                    pass
+                if out in fresh.files and out != args[-1]:
+                    a, b = rk.files.get(out), fresh.files[out]
+                    if a is None:
+                        d = "missing"
+                    elif out.endswith("sol"):
+                        d = close_texts(a, b)
+                    elif out.endswith("pre"):
+                        d = None if canon_pre(a) == canon_pre(b) else "content differs"
+                    else:
+                        # nodes are drawn in the iteration order of a Go map: same elements, any order
+                        d = None if sorted(a.split("\n")) == sorted(b.split("\n")) else "content differs"
+                    if d:
+                        viol("%s after %s in the same directory leaves a different %s than in a clean directory: %s" % (" ".join(args), [" ".join(a_) for a_ in hist[:k]], out, d), rep)
         # plot writes <input>.svg
         r5 = cli.run(ctx, ["plot", "x.inkfem"], files={"x.inkfem": text}, name="c13")
         runs += 1
@@ -228,7 +259,7 @@ def run(ctx):
         "states": 0, "exhaustive": True,
         "rule": "model: all interleavings of the main flow and the background writer for every combination of solvable / creatable flags (explored inside Coq to a closed set). binary: %d inputs (portal, beam, polyline, "
                 "a 6x4 reticular frame with a large .inkfempre) x {pre, solve, solve -p under VERIF_WRITER=late / early / free, each with -v and -s}: exit status, files next to the input, .inkfempre identical in content "
-                "to pre's (up to the order of map-backed sections), .inkfemsol well-formed and numerically equal; -w vs explicit downward global loads; -e 1e-300 must fail and -e 1e6 succeed; plot writes <input>.svg; generate prints to stdout; "
+                "to pre's (up to the order of map-backed sections), .inkfemsol well-formed and numerically equal; -w vs explicit downward global loads; -e 1e-300 must fail and -e 1e6 succeed; a ten-command history in one directory (solve, solve -w, solve, solve -p, pre -w, solve -e 1e-300, pre, solve x.inkfempre, plot, solve -e 1e6) where every step must do what it does in a clean directory; plot writes <input>.svg; generate prints to stdout; "
                 "--version. non-trivial = solve -p runs under an imposed schedule" % len(inputs),
         "samples": [{"args": ["solve", "-p", "retic.inkfem"], "env": {"VERIF_WRITER": "late"}}],
     }
